@@ -140,7 +140,11 @@ func (x *Exec) lookup(st *State, fr *Frame, i *ssa.Lookup) Value {
 	xv := x.val(st, fr, i.X)
 	m, ok := xv.(MapV)
 	if !ok {
-		panic(unsupported("string indexing"))
+		sv, isStr := xv.(Sc)
+		if !isStr {
+			panic(unsupported(fmt.Sprintf("lookup on %T", xv)))
+		}
+		return x.stringIndex(st, fr, sv, scT(x.val(st, fr, i.Index)), i.Pos())
 	}
 	k := x.val(st, fr, i.Index)
 	x.guardMap(st, m, i.Pos(), "read")
@@ -275,4 +279,15 @@ func (x *Exec) rangeNext(st *State, fr *Frame, i *ssa.Next) Value {
 	v := x.mapRead(st, st.heap, it.M, kv)
 	st.ghost[it.Name+".pos"] = Ite(okT, Add(pos, Int(1)), pos)
 	return Tup{Sc{okT}, kv, v}
+}
+
+// stringIndex: s[i] on a string: bounds duty, then the i-th byte of the (abstract) string.
+func (x *Exec) stringIndex(st *State, fr *Frame, sv Sc, idx *Term, pos token.Pos) Value {
+	declareFun("strlen", "(declare-fun strlen (Int) Int)")
+	declareFun("strbytes", "(declare-fun strbytes (Int) (Array Int Int))")
+	n := x.builtinVals(st, fr, "len", []Value{sv}, nil, pos).(Sc).T
+	x.safe(st, "index", pos, "string index in range", And(Le(Int(0), idx), Lt(idx, n)))
+	b := Select(App("strbytes", SArr, sv.T), idx)
+	st.assume(And(Le(Int(0), b), Le(b, Int(255))))
+	return Sc{b}
 }
